@@ -633,6 +633,17 @@ def plan_c06(tier, seed, workdir, case):
             gs.append(g)
         for t in write_tus_eol(workdir, "c06", gs, 10 if q else 25, 5, C09_INCLUDES, eol):
             runs.append(Run(t, args=["--prop", "C06"]))
+    # parse-tree nodes are observation points too: positions stored in the nodes (eager and lazy inputs)
+    G = gen.Gen(seed * 1000 + 67, ops=CORE_OPS + ["until", "list", "rep"], atoms=C06_ATOMS, max_depth=3, nrules=(2, 4))
+    tg = []
+    for _ in range(16 if q else 120):
+        g, rej = G.grammar()
+        g.alphabet = "a\n\rb"
+        g.maxlen = (4, 5)
+        make_selectors(g, rnd)
+        tg.append(g)
+    for t in write_tus(workdir, "c06t", tg, 8 if q else 20, 6, C09_INCLUDES):
+        runs.append(Run(t, args=["--prop", "C06"]))
     return runs
 
 
@@ -855,3 +866,114 @@ spec("C18", plan=plan_c18,
           "inspection beyond start+N, the input's end is the real end afterwards in every outcome.  Non-trivial: guarded rule starting at "
           "offset > 0 with more than N bytes remaining; inputs deeper than the limit.",
      assumptions=COMMON_ASSUME + ["unguarded PEGTL runs serve as reference for the guarded ones (the property is about the guard)"])
+
+# ---------------------------------------------------------------------------- C12
+
+
+def make_selectors(g, rnd):
+    """Two random selectors over the grammar's user-visible types (named rules and sub-expressions)."""
+    L = gen.Lowered(g)
+    cts = sorted(set(m.ctype for m in L.nodes if m.ctype))
+    sels = []
+    # selector 1: subset, store_content only
+    s1 = {}
+    for ct in cts:
+        if rnd.random() < 0.45:
+            s1[ct] = 1
+    if not s1 and cts:
+        s1[cts[0]] = 1
+    sels.append(s1)
+    # selector 2: mix of all four transformers
+    s2 = {}
+    for ct in cts:
+        x = rnd.random()
+        if x < 0.25:
+            s2[ct] = 1
+        elif x < 0.40:
+            s2[ct] = 2
+        elif x < 0.55:
+            s2[ct] = 3
+        elif x < 0.70:
+            s2[ct] = 4
+    sels.append(s2)
+    g.selectors = sels
+
+
+def chain_grammars():
+    """Chains of 6..11 unselected wrapper rules above (and below) a selected rule, with backtracking and predicates:
+    the leaf-optimisation of the tree builder looks 8 levels deep."""
+    N = gen.N
+    out = []
+    for length in (6, 7, 8, 9, 10, 11):
+        for variant in range(3):
+            rules = []
+            # R0: top with backtracking over the chain; R1..R<length>: wrappers; last: selected leaf
+            leaf_idx = length + 1
+            if variant == 0:
+                top = N("sor", [N("seq", [gen.ref(1), N("one", s="x")]), N("seq", [gen.ref(1), N("one", s="y")]), N("seq", [N("star", [N("any")])])])
+            elif variant == 1:
+                top = N("seq", [N("not_at", [gen.ref(1), N("one", s="x")]), N("opt", [gen.ref(1), N("one", s="z")]), gen.ref(1), N("star", [N("any")])])
+            else:
+                top = N("seq", [N("star", [gen.ref(1), N("one", s="x")]), N("at", [gen.ref(1)]), N("opt", [gen.ref(1)]), N("star", [N("any")])])
+            rules.append(top)
+            for k in range(1, length + 1):
+                rules.append(N("seq", [gen.ref(k + 1)]))
+            rules.append(N("plus", [N("one", s="a")]))
+            g = gen.Grammar(rules, alphabet="axyz", maxlen=(5, 6))
+            leaf = "R%d" % leaf_idx
+            g.selectors = [{leaf: 1, "R0": 1}, {leaf: 1, "R%d" % (length // 2): 3, "R0": 4}]
+            out.append(g)
+    return out
+
+
+def plan_c12(tier, seed, workdir, case):
+    if case is not None:
+        return replay_corpus_plan("C12", workdir, case, cfgset=6, extra_includes=C09_INCLUDES)
+    import random
+    rnd = random.Random(seed * 23 + 13)
+    q = tier == "quick"
+    gs = []
+    # (1) core + convenience grammars, recursive named rules
+    G = gen.Gen(seed * 1000 + 71, ops=CORE_OPS + ["list", "pad", "if_then_else", "until", "rep", "rep_min_max", "opt_must", "strict", "rematch"],
+                max_depth=3 if q else 4, nrules=(2, 5))
+    for _ in range(50 if q else 500):
+        g, rej = G.grammar()
+        attach_actions(g, rnd, [1, 2], density=0.2)
+        make_selectors(g, rnd)
+        gs.append(g)
+    # (2) exceptions absorbed by try_catch_return_false, throwing actions, then the parse continues
+    G2 = gen.Gen(seed * 1000 + 73, ops=CORE_OPS + RAISE_OPS + ["list", "pad"], max_depth=3 if q else 4, nrules=(2, 4))
+    for _ in range(40 if q else 400):
+        g, rej = G2.grammar()
+        attach_actions(g, rnd, [1, 2, 3, 4], influence=True)
+        g.veto = True
+        g.throw = True
+        make_selectors(g, rnd)
+        gs.append(g)
+    chains = chain_grammars()
+    # (3) slot shapes: raising / throwing / consume-then-fail leaves under every combinator
+    shapes = in_contexts(conv_shapes(bounds=(0, 1, 2)) + try_shapes(), contexts=("bare", "seq"))
+    for g in shapes:
+        make_selectors(g, rnd)
+    runs = []
+    for t in write_tus(workdir, "t1", gs, 8 if q else 20, 6, C09_INCLUDES):
+        runs.append(Run(t, args=["--prop", "C12"]))
+    for t in write_tus(workdir, "t2", chains, 6, 6, C09_INCLUDES):
+        runs.append(Run(t, args=["--prop", "C12"]))
+    for t in write_tus(workdir, "t3", shapes, 12, 6, C09_INCLUDES):
+        runs.append(Run(t, args=["--prop", "C12", "--rc", "300" if q else "4000"]))
+    return runs
+
+
+spec("C12", plan=plan_c12,
+     rule="parse_tree::parse with three selectors per grammar (store_all; a random subset with store_content; a random mix of "
+          "store_content / remove_content / fold_one / discard_empty) on (1) random grammars with 2..5 recursive named rules over core "
+          "and convenience operators, (2) grammars whose try_catch_*_return_false rules absorb must failures and exceptions thrown by "
+          "actions and then continue, (3) chains of 6..11 unselected wrapper rules above a selected rule under backtracking, "
+          "look-ahead and repetition (the leaf optimisation looks 8 levels deep), (4) every combinator over raising / throwing / "
+          "consume-then-fail slots; all inputs to length 5/6 plus rapidcheck inputs and scripts.  Oracle: a tree is returned iff the "
+          "reference model says the parse succeeds, and it equals the model's derivation tree (successful matches of user-visible rule "
+          "types that survive, including those inside a succeeding at<>) restricted to the selected types with the documented "
+          "transformers applied bottom-up: type, begin/end offsets, content flag, order and nesting.  Non-trivial: a run in which an "
+          "already matched node was discarded by backtracking or by a caught exception.",
+     assumptions=COMMON_ASSUME + ["reference model and its derivation tree (model/peg_model.hpp)"])
